@@ -181,7 +181,9 @@ Proof.
 Qed.
 
 Definition rl_ok c (i : rl_input) : Prop :=
-  (forall c c' : cconn hstate, Wok hstate c c') /\ (forall x x', Vok x x') /\ Eall CENil /\
+  (forall c c' : cconn hstate, Wok hstate c c') /\ (forall x x', Vok x x') /\
+  (forall fr, i = RFrame fr -> cl_rl_live c = true -> cc_netClosed c = false ->
+     forall c1, (sf_kind fr <> KWinUpd -> sf_kind fr <> KGoAway -> c1 = c) -> nil_at dec_field c1 fr -> Eok (sf_sid fr) CENil) /\
   (forall fr, i = RFrame fr -> sf_kind fr = KGoAway -> sf_sid fr = 0 -> cl_rl_live c = true -> cc_netClosed c = false ->
      forall id, sf_dep fr < id -> Eok id CEGoAway).
 
@@ -419,8 +421,9 @@ Proof.
   - destruct (cl_wl_live c); [|apply sum_refl]. apply sum_of_effo, effo_wl_ping; [apply Pben_plain | exact St].
   - destruct (cl_wl_live c); [|apply sum_refl]. apply sum_of_effo, effo_wl_done; [apply Pben_plain | exact St].
   - destruct (cl_rl_live c) eqn:RLv; [|apply sum_refl]. destruct (Hrl i eq_refl) as (Hw & Hv & Hn & Hg).
-    apply sum_of_effo, effo_rl_step; auto; [apply Pben_plain | intro NP; right; split; [eexists; reflexivity | exact NP]|].
-    intros fr Hi' K Z NC. apply (Hg fr Hi' K Z RLv NC).
+    apply sum_of_effo, effo_rl_step; auto; [apply Pben_plain | intro NP; right; split; [eexists; reflexivity | exact NP] | |].
+    + intros fr Hi' K Z NC. apply (Hg fr Hi' K Z RLv NC).
+    + intros fr Hi' NC. apply (Hn fr Hi' RLv NC).
   - apply sum_timeout_fire, Hi.
   - apply sum_timeout_cancel, Hi.
   - apply sum_receive, Hi.
